@@ -228,6 +228,7 @@ def run_property(prop, tier):
     # replay tier: saved inputs of earlier findings must pass on a tree where they are fixed
     regress_dir = os.path.join(ROOT, "regress")
     regress_run = 0
+    regress_stale = 0
     if os.path.isdir(regress_dir):
         for fn in sorted(os.listdir(regress_dir)):
             if not (fn.startswith(prop + "-") and fn.endswith(".json")):
@@ -248,6 +249,10 @@ def run_property(prop, tier):
             if "REPLAY-VIOLATION" in p.stdout:
                 print("[regress %s] violation reproduced" % fn)
                 violations.append(path)
+            elif "REPLAY-STALE" in p.stdout:
+                regress_stale += 1
+                print("[regress %s] recorded with an older generator (no longer the same case); regenerate with "
+                      "SELFTEST_SAVE_REGRESS=1 verif.py selftest %s" % (fn, prop))
     wall = time.time() - t0
     known = load_known()
     known_hits = {}
@@ -288,6 +293,7 @@ def run_property(prop, tier):
             "cases_per_sec": round(evaluations / wall, 1) if wall > 0 else 0,
             "native_fuzz_execs": fuzz_execs,
             "regression_replays_run": regress_run,
+            "regression_replays_stale": regress_stale,
         },
         "assumptions": spec.get("assumptions", []),
         "wall_s": round(wall, 2), "violations": len(violations),
